@@ -596,8 +596,8 @@ pub async fn read_body(ctx: Ctx, name: String, side: u8, mut body: h2::RecvStrea
     loop {
         if plan.probe_end_stream && body.is_end_stream() {
             ctx.hist.dir(sid, dir, |d| d.r_is_end_stream_true = true);
-            let (s_end, s_body, s_tr, s_abort) = ctx.hist.dir(sid, dir, |d| (d.s_end, d.s_body, d.s_trailers.is_some(), d.s_abort.clone()));
-            if !s_end || s_body != off || s_tr || s_abort.is_some() {
+            let (s_end, s_body, s_tr, s_abort, known) = ctx.hist.dir(sid, dir, |d| (d.s_end, d.s_body, d.s_trailers.is_some(), d.s_abort.clone(), d.s_head.is_some()));
+            if known && (!s_end || s_body != off || s_tr || s_abort.is_some()) {
                 ctx.hist.violation(Violation::new(
                     "C01",
                     "is-end-stream-early",
